@@ -276,6 +276,34 @@ def r5_p_error(chk):
     rec = [c for c in walk_no_nested(fn) if isinstance(c, ast.Call) and isinstance(c.func, ast.Attribute) and
            c.func.attr in ('errok', 'restart', 'token')]
     chk.ob('C11.R5', 'SmiV2Parser.p_error/no-recovery', not rec, where(owner.mod, fn), 'error recovery resumes parsing')
+    # the token handed to p_error carries a value of token-dependent type (text, or int for numbers): the message may
+    # only use it through operations defined for every type
+    tokp = fn.args.args[-1].arg
+    parents = {}
+    for n_ in ast.walk(fn):
+        for c_ in ast.iter_child_nodes(n_):
+            parents[c_] = n_
+    uses = 0
+    for a in ast.walk(fn):
+        if isinstance(a, ast.Attribute) and isinstance(a.value, ast.Name) and a.value.id == tokp and a.attr == 'value':
+            uses += 1
+            par = parents.get(a)
+            if isinstance(par, ast.Tuple):
+                par2 = parents.get(par)
+                ok_use = isinstance(par2, ast.BinOp) and isinstance(par2.op, ast.Mod) and par2.right is par
+            elif isinstance(par, ast.BinOp) and isinstance(par.op, ast.Mod):
+                ok_use = par.right is a
+            elif isinstance(par, ast.Call):
+                ok_use = dotted_name(par.func) in ('str', 'repr') and a in par.args
+            elif isinstance(par, ast.keyword):
+                ok_use = True
+            elif isinstance(par, ast.FormattedValue):
+                ok_use = True
+            else:
+                ok_use = False
+            chk.ob('C11.R5', 'SmiV2Parser.p_error/token-value-use@%s' % type(par).__name__, ok_use, where(owner.mod, a),
+                   'the value of the offending token is a number for NUMBER tokens and text otherwise; `%s` is not '
+                   'defined for both, so reporting the syntax error raises a foreign exception' % norm(par)[:60])
     # grammar has no `error` token productions in any dialect
     for dname, opts in dialect_list(chk):
         d = Dialect(model, opts)
@@ -341,10 +369,16 @@ def r7_numeric_conversion(chk):
     chk.floor('C11.R7', 1, 't_NUMBER')
 
 
+def r9_number_classifier(chk):
+    """numbers beyond 64 bits are rejected with a located lexer error, whatever their sign (C05.R1 under this property)"""
+    from rules.C05 import r1_number_classifier
+    r1_number_classifier(chk, rule='C11.R9')
+
+
 def r8_actions_cannot_raise_typeerror(chk):
     from rules.C02 import r2b_operand_shapes
     r2b_operand_shapes(chk, rule='C11.R8')
 
 
 RULES = [r1_located_package_errors, r2_state_totality, r3_progress_and_token_types, r4_line_accounting, r5_p_error,
-         r6_parse_result, r7_numeric_conversion, r8_actions_cannot_raise_typeerror]
+         r6_parse_result, r7_numeric_conversion, r8_actions_cannot_raise_typeerror, r9_number_classifier]
